@@ -109,6 +109,29 @@ type Result struct {
 	Err     string
 	Fields  []physical.SchemaField
 	Records []execution.Record // consolidated order of emission (retractions included as emitted)
+	// SchemaDiff is non-empty when the optimised plan announces another schema than the plan it was made from.
+	SchemaDiff string
+}
+
+func schemaDiff(a, b physical.Schema) string {
+	if len(a.Fields) != len(b.Fields) {
+		return fmt.Sprintf("%d fields before, %d after", len(a.Fields), len(b.Fields))
+	}
+	for i := range a.Fields {
+		if a.Fields[i].Name != b.Fields[i].Name {
+			return fmt.Sprintf("field %d is %s before, %s after", i, a.Fields[i].Name, b.Fields[i].Name)
+		}
+		if !a.Fields[i].Type.Equals(b.Fields[i].Type) {
+			return fmt.Sprintf("field %s has type %s before, %s after", a.Fields[i].Name, a.Fields[i].Type, b.Fields[i].Type)
+		}
+	}
+	if a.TimeField != b.TimeField {
+		return fmt.Sprintf("time field %d before, %d after", a.TimeField, b.TimeField)
+	}
+	if a.NoRetractions != b.NoRetractions {
+		return fmt.Sprintf("NoRetractions %v before, %v after", a.NoRetractions, b.NoRetractions)
+	}
+	return ""
 }
 
 var tvfs = map[string]logical.TableValuedFunctionDescription{
@@ -215,7 +238,12 @@ func Run(sql string, tables map[string]*Table, optimize bool) (res Result) {
 	}
 	reverse := logical.ReverseMapping(mapping)
 	if optimize {
+		before := plan.Schema
 		plan = optimizer.Optimize(plan)
+		// an observation, not a judgement: did the optimiser change the schema of the plan (names, order, types, time field, retraction flag)?
+		if d := schemaDiff(before, plan.Schema); d != "" {
+			res.SchemaDiff = d
+		}
 	}
 	exec, err := plan.Materialize(ctx, env)
 	if err != nil {
